@@ -12,6 +12,9 @@
 (***************************************************************************)
 EXTENDS Naturals, Sequences, FiniteSets, TLC, Json
 
+\* ReplaceOnReattach: `handlers` is the table as it stands when resolution starts.  Attaching a handler for a method that
+\* already has one replaces it; the binding builds every table twice -- directly, and with a stale handler attached first
+\* for every method (tagged so that an invocation of it shows up as a call with h # d.m and violates DispatchByMethod).
 CONSTANTS Methods,      \* all DID method names
           Dids,         \* set of [m : method, n : number]
           MaxInput      \* longest input list
